@@ -120,8 +120,8 @@ func (l *Lexer) scanToken() error {
 		}
 	case '/':
 		if l.match('/') {
-			// Line comment
-			for l.peek() != '\n' && !l.isAtEnd() {
+			// Line comment: ends at any WGSL line break; a lone carriage return is one too
+			for l.peek() != '\n' && l.peek() != '\r' && !l.isAtEnd() {
 				l.advance()
 			}
 		} else if l.match('*') {
